@@ -106,20 +106,20 @@ theorem fmtC_ok (ds : Option Ds64) (hds : ∀ d, ds = some d → d.table = []) (
   refine ⟨by simp only [fmtC]; decide, by simp only [fmtC]; decide, by simp only [fmtC]; decide, ?_,
     by simp [fmtC, fmtPayload, le_length]⟩
   cases ds with
-  | none => simp [effSize, fmtC, fmtPayload, le_length]
+  | none => simp [effSize, hdrSize, fmtC, fmtPayload, le_length]
   | some d =>
     have : d.table = [] := hds d rfl
-    simp [effSize, fmtC, fmtPayload, le_length, Ds64.lookup, this, idFmt, idData]
+    simp [effSize, hdrSize, fmtC, fmtPayload, le_length, Ds64.lookup, this, idFmt, idData]
 
 theorem metaC_ok (ds : Option Ds64) (hds : ∀ d, ds = some d → d.table = []) {id v : Bytes}
     (hid : id = idAxml ∨ id = idBext) (hv : v.length < 2 ^ 32) : (metaC id v).OK ds := by
   refine ⟨by rcases hid with rfl | rfl <;> simp only [metaC] <;> decide,
     by rcases hid with rfl | rfl <;> simp only [metaC] <;> decide, hv, ?_, by simp [metaC, pad_length]⟩
   cases ds with
-  | none => simp [effSize, metaC]
+  | none => simp [effSize, hdrSize, metaC]
   | some d =>
     have : d.table = [] := hds d rfl
-    rcases hid with rfl | rfl <;> simp [effSize, metaC, Ds64.lookup, this, idAxml, idBext, idData]
+    rcases hid with rfl | rfl <;> simp [effSize, hdrSize, metaC, Ds64.lookup, this, idAxml, idBext, idData]
 
 theorem chnaC_ok (ds : Option Ds64) (hds : ∀ d, ds = some d → d.table = []) {es : List ChnaEntry}
     (h : ChnaOK (some es)) : (chnaC es).OK ds := by
@@ -128,10 +128,10 @@ theorem chnaC_ok (ds : Option Ds64) (hds : ∀ d, ds = some d → d.table = []) 
   refine ⟨by simp only [chnaC]; decide, by simp only [chnaC]; decide, by simp only [chnaC]; omega, ?_,
     by simp only [chnaC, hl, List.length_nil]; omega⟩
   cases ds with
-  | none => simp [effSize, chnaC]
+  | none => simp [effSize, hdrSize, chnaC]
   | some d =>
     have : d.table = [] := hds d rfl
-    simp [effSize, chnaC, Ds64.lookup, this, idChna, idData]
+    simp [effSize, hdrSize, chnaC, Ds64.lookup, this, idChna, idData]
 
 theorem optChnaC_ok (ds : Option Ds64) (hds : ∀ d, ds = some d → d.table = []) {c : Option (List ChnaEntry)}
     (h : ChnaOK c) : ∀ x ∈ optChnaC c, x.OK ds := by
